@@ -46,3 +46,17 @@ package cmap
 //@     invariant 0 <= i && i <= numTables && numTables <= 65535 && len(data) >= 4 + 8*numTables && endOfHeader == 4 + 8*numTables
 //@     invariant endOfData == len(data) && len(data) <= 4294967295 && res != nil && fresh(res) && (isnil(segs) || fresh(segs))
 //@     decreases numTables - i
+
+// Subtable interface: lookups are read-only (assumed for the implementations).
+//@ assume func (s Subtable) Lookup(r rune) (gid glyph.ID)
+//@   modifies nothing
+//@ assume func (s Subtable) CodeRange() (low rune, high rune)
+//@   modifies nothing
+
+// GetBest/Get call the format decoders through a table of function values;
+// their frame is assumed, not checked.
+//@ assume func (ss Table) GetBest() (sub Subtable, err error)
+//@   modifies nothing
+//@ assume func (ss Table) Get(key Key) (sub Subtable, err error)
+//@   ensures !has(ss, key) ==> err != nil
+//@   modifies nothing
